@@ -310,6 +310,8 @@ class Close(InoSpec):
     def setup(self, ex):
         self.new_object(ex)
         self.released_by_me = False
+        self.before = self.after = None
+        self.entry = self.st(ex)
         return {"self": self.me}
 
     def on_release(self, ex):
@@ -321,6 +323,9 @@ class Close(InoSpec):
 
     def post(self, ex, result):
         o, n = self.before, self.after
+        if o is None:   # returned without a critical section: nothing was decided atomically
+            ex.oblige("post[the closed test and the release are one critical section]", False)
+            o = n = self.st(ex)
         ex.oblige("post[closed]", n["closed"])
         ex.oblige("post[released now, or left to the reader in flight with the wake-up byte written]", z3.Or(o["closed"], n["released"], z3.And(n["reading"], z3.BoolVal(self.kill_written))))
         ex.oblige("post[second close() is a no-op]", z3.Implies(o["closed"], z3.And(z3.BoolVal(not self.kill_written and not self.released_by_me and self.rm_watch_calls == 0))))
@@ -414,6 +419,7 @@ class ReadEvents(InoSpec):
         for nm, f in self.map_inv(ex):
             ex.assume(f)
         self.maps0 = self.maps(ex)
+        self.mf_entry = ex.heap[(self.me.id, "_moved_from_events")]
         return {"self": self.me, "event_buffer_size": VOpaque("size")}
 
     def maps(self, ex):
@@ -436,18 +442,26 @@ class ReadEvents(InoSpec):
         s = self.st(ex)
         return [("lock-not-held-between-attempts", z3.BoolVal(LOCK not in ex.held))] + [("J:" + nm, f) for nm, f in self.J(s)] + [("not-reading-between-attempts", z3.Not(s["reading"])), ("nothing-released-by-this-call", z3.BoolVal(not self.released_by_me))]
 
-    def havoc_maps(self, ex):
+    def havoc_maps(self, ex, move_records=True):
         W = self.W
         H = ex.heap
         H[(self.me.id, "_wd_for_path")] = ex.fresh(W.TWP, "_wd_for_path")
         H[(self.me.id, "_path_for_wd")] = ex.fresh(W.TPW, "_path_for_wd")
-        H[(self.me.id, "_moved_from_events")] = ex.fresh(W.TMF, "_moved_from_events")
+        if move_records:   # only the record loop writes them (a store inside another loop body is havocked by the engine's own
+            H[(self.me.id, "_moved_from_events")] = ex.fresh(W.TMF, "_moved_from_events")   # mutated-lvalue analysis)
         self.g["K"] = ex.fresh_term(self.g["K"].sort(), "kernel_watches")
 
     def inv_records(self, ex, k):
         out = [("lock-held-while-translating", z3.BoolVal(LOCK in ex.held))] + self.map_inv(ex)
         el = ex.scope.lookup("event_list").vars["event_list"]
         out.append(("event_list-well-formed", el.n >= 0))
+        if "maps" in self.want:
+            c = z3.Const("mc", z3.IntSort())
+            mf = ex.heap[(self.me.id, "_moved_from_events")]
+            # the two halves of a rename may arrive in different read batches (the reader woke between them, or the buffer
+            # was full): the remembered first half must still be there when the second half is translated
+            out.append(("move records of earlier batches are kept (a rename split across two reads is still paired)",
+                        isinstance(mf, VDict) and z3.ForAll([c], z3.Implies(self.mf_entry.dom[c], mf.dom[c]))))
         return out
 
     def gs_record(self, ex, k, el=None):
@@ -490,6 +504,12 @@ class ReadEvents(InoSpec):
                   z3.Implies(z3.And(live, rec, bit("IN_CREATE"), isd), z3.Or(m1["wp"].dom[src], z3.BoolVal(getattr(self, "add_failed_first", False)))))
         ex.oblige("record[IN_IGNORED: the descriptor's entry is pruned, and its path entry too if it still points at it]",
                   z3.Implies(z3.And(live, bit("IN_IGNORED")), z3.And(z3.Not(m1["pw"].dom[wd]), z3.Implies(z3.And(m0["wp"].dom[wd_path], m0["wp"].val[wd_path] == wd), z3.Not(m1["wp"].dom[wd_path])))))
+        fp = z3.Const("fp", W.PS)
+        ex.oblige("record[IN_IGNORED: every other path entry stays - in particular the entry of a name that was re-used for a new directory while the old descriptor was still draining]",
+                  z3.Implies(z3.And(live, bit("IN_IGNORED")), z3.ForAll([fp], z3.Implies(z3.Not(z3.And(fp == wd_path, m0["wp"].val[fp] == wd)),
+                                                                                        z3.And(m1["wp"].dom[fp] == m0["wp"].dom[fp], z3.Implies(m0["wp"].dom[fp], m1["wp"].val[fp] == m0["wp"].val[fp]))))))
+        ex.oblige("record[IN_IGNORED: a path entry that meanwhile points at another descriptor (name re-used) is kept]",
+                  z3.Implies(z3.And(live, bit("IN_IGNORED"), m0["wp"].dom[wd_path], m0["wp"].val[wd_path] != wd), z3.And(m1["wp"].dom[wd_path], m1["wp"].val[wd_path] == m0["wp"].val[wd_path])))
         # rename of a watched directory: found through the remembered MOVED_FROM with the same cookie
         mf = m0_mf = self.mf_rec0
         cookie = W.RecTT.proj[2](t)
@@ -505,7 +525,7 @@ class ReadEvents(InoSpec):
 
     # ---- _recursive_simulate
     def havoc_sim(self, ex):
-        self.havoc_maps(ex)
+        self.havoc_maps(ex, move_records=False)
         self.dvis = ex.fresh_term(z3.IntSort(), "dirs_tried")
 
     def gs_walk(self, ex, k, el=None):
